@@ -40,21 +40,27 @@ class Eye(ArrayExpr):
         from dask_array._frisky.eye import EyeLayer
 
         vchunks, hchunks = self.chunks
+        if vchunks[0] != hchunks[0]:
+            # The records layer places the diagonal on a grid of square
+            # chunk_size blocks; row and column blocks differ here.
+            raise NotImplementedError("rows and columns are chunked differently")
         return EyeLayer(self._name, self.dtype, vchunks, hchunks, self._chunk_size, self.k)
 
     def _layer(self) -> dict:
         dsk = {}
         vchunks, hchunks = self.chunks
-        chunk_size = self._chunk_size
         k = self.k
         dtype = self.dtype
 
+        row = 0
         for i, vchunk in enumerate(vchunks):
+            col = 0
             for j, hchunk in enumerate(hchunks):
                 key = (self._name, i, j)
-                # Check if this block contains part of the k-diagonal
-                if (j - i - 1) * chunk_size <= k <= (j - i + 1) * chunk_size:
-                    local_k = k - (j - i) * chunk_size
+                # The k-diagonal holds the elements with column - row == k;
+                # inside this block that is the local_k-diagonal.
+                local_k = k + row - col
+                if -vchunk < local_k < hchunk:
                     task = Task(
                         key,
                         np.eye,
@@ -66,6 +72,8 @@ class Eye(ArrayExpr):
                 else:
                     task = Task(key, np.zeros, (vchunk, hchunk), dtype)
                 dsk[key] = task
+                col += hchunk
+            row += vchunk
         return dsk
 
 
